@@ -308,7 +308,7 @@ pub mod comments {
 
 /// Byte spans (relative to the start of `text`) of the syntactic elements the
 /// properties talk about, from rustc's own parse of `text`:
-/// (kind, lo, hi, parent_kind) with kind one of item, assoc_item, foreign_item,
+/// (kind, lo, hi, parent_kind; for a statement parent_kind is let / expr / mac) with kind one of item, assoc_item, foreign_item,
 /// stmt, field, variant, arm, param, arg (call / method-call argument), expr_field
 /// (struct-literal field). `lo` includes the element's outer attributes.
 pub fn ast_nodes(text: &str, config: &Config) -> Option<Vec<(String, usize, usize, String)>> {
@@ -363,11 +363,26 @@ pub fn ast_nodes(text: &str, config: &Config) -> Option<Vec<(String, usize, usiz
             visit::walk_item(self, i);
         }
         fn visit_stmt(&mut self, s: &'ast ast::Stmt) {
+            // parent_kind of a statement node tells which kind of statement it is
+            let outer = self.parent.last().copied().unwrap_or("root");
+            let _ = outer;
             match &s.kind {
                 ast::StmtKind::Item(_) | ast::StmtKind::Empty => {}
-                ast::StmtKind::Let(l) => self.add("stmt", s.span, &l.attrs),
-                ast::StmtKind::Expr(e) | ast::StmtKind::Semi(e) => self.add("stmt", s.span, &e.attrs),
-                ast::StmtKind::MacCall(m) => self.add("stmt", s.span, &m.attrs),
+                ast::StmtKind::Let(l) => {
+                    self.parent.push("let");
+                    self.add("stmt", s.span, &l.attrs);
+                    self.parent.pop();
+                }
+                ast::StmtKind::Expr(e) | ast::StmtKind::Semi(e) => {
+                    self.parent.push("expr");
+                    self.add("stmt", s.span, &e.attrs);
+                    self.parent.pop();
+                }
+                ast::StmtKind::MacCall(m) => {
+                    self.parent.push("mac");
+                    self.add("stmt", s.span, &m.attrs);
+                    self.parent.pop();
+                }
             }
             self.parent.push("stmt");
             visit::walk_stmt(self, s);
